@@ -141,6 +141,20 @@ def model_only(sh, rng, n):
             r.inline = False
             twin.refs[pos[id(r)]].inline = False
             flips += 1
+        if rng.random() < 0.4:
+            # a reference becomes many-to-many, everything is rendered / inspected, and it becomes what it was again
+            # (the twin is taken through the same values without being looked at in between)
+            for r in rng.sample(list(db.refs), min(2, len(db.refs))):
+                old_t, old_i = r.type, r.inline
+                tw = twin.refs[pos[id(r)]]
+                r.type = tw.type = '<>'
+                try:
+                    db.sql, db.dbml, r.inline, r.sql
+                except Exception:  # noqa
+                    pass
+                r.type = tw.type = old_t
+                flips += 1
+            sh.count('obs.many_to_many_and_back')
         if rng.random() < 0.5:          # half of the time ONLY inline-ness changes (references still compare equal)
             for r in db.refs:
                 if rng.random() < 0.3 and r.type in ('>', '<'):
